@@ -43,11 +43,30 @@ def idle_conns(inner, tok):
     return []
 
 
+WAITER_TUPLES = False  # set from the MIR: are queued waiters `(Sender, follows_attempt)` pairs?
+
+
+def detect_waiter_shape(prog, f_push):
+    """the element type of PoolInner.waiting is read off the locals of the real push()"""
+    global WAITER_TUPLES
+    WAITER_TUPLES = any("VecDeque<(tokio::sync::oneshot::Sender<" in t for t in f_push.locals.values())
+    return WAITER_TUPLES
+
+
+def queued(sender, follows=False):
+    """a waiting-queue element of the shape the current source uses"""
+    return Agg("tuple", [sender, z3.BoolVal(follows)]) if WAITER_TUPLES else sender
+
+
+def sender_of(x):
+    return x.f[0] if isinstance(x, Agg) and x.kind == "tuple" else x
+
+
 def waiters(inner, tok):
     m = inner.f[2]
     for k, cell in m.entries:
         if token_value(k) == tok:
-            return [c.v for c in cell.v.cells]
+            return [sender_of(c.v) for c in cell.v.cells]
     return []
 
 
@@ -64,7 +83,7 @@ def build_inner(ctx, nw, ni, share, with_b, mark, max_idle, idle_timeout=None, o
     for i in range(nw):
         ws.append(OneshotSenderV(z3.Bool(f"waiter{i}_still_waiting"), tag=f"A{i}"))
     if nw:
-        waiting.entries.append((token(1), Cell(VecDequeV(ws), "waitA")))
+        waiting.entries.append((token(1), Cell(VecDequeV([queued(w) for w in ws]), "waitA")))
     ents = []
     for i in range(ni):
         at = z3.Int(f"idle_since{i}")
@@ -77,7 +96,7 @@ def build_inner(ctx, nw, ni, share, with_b, mark, max_idle, idle_timeout=None, o
     wb = None
     if with_b:
         wb = OneshotSenderV(z3.BoolVal(True), tag="B0")
-        waiting.entries.append((token(2), Cell(VecDequeV([wb]), "waitB")))
+        waiting.entries.append((token(2), Cell(VecDequeV([queued(wb)]), "waitB")))
         idle.entries.append((token(2), Cell(idle_list([(z3.IntVal(0), PConnV(5, False, z3.BoolVal(True)))]), "idleB")))
     if mark:
         conn.entries.append((token(1), Cell(UNIT, "hs")))
@@ -108,6 +127,7 @@ def obligations(prog, src, tier, seed, which, select=None):
     obs = []
     PM = r"pool::<impl at src/client/pool/mod\.rs:\d+:\d+: \d+:\d+>::"
     f_push = prog.find_one(PM + r"push$", r"PoolInner")
+    detect_waiter_shape(prog, f_push)
     f_pop = prog.find_one(PM + r"pop$", r"PoolInner")
     f_pooled_drop = prog.find_one(PM + r"drop$", r"&mut Pooled<")
     f_wr_poll = prog.find_one(PM + r"poll$", r"WhenReady")
@@ -225,6 +245,7 @@ def obligations(prog, src, tier, seed, which, select=None):
                 props.append(("connection idle for longer than idle_timeout handed out", fresh[k]))
                 props.append(("handed-out connection is not the most recently released eligible one", z3.And(*[z3.Not(e) for e in elig[k + 1:]]) if elig[k + 1:] else z3.BoolVal(True)))
                 props.append(("handed-out connection is still listed as idle (could be handed out twice)", all(x.cid != k for x in left)))
+                props.append(("idle connections released before the handed-out one were discarded instead of staying available for reuse", [x.cid for x in left] == list(range(k))))
         else:
             props.append(("an open, unexpired idle connection exists but was not reused (a dial would follow)", z3.Not(z3.Or(*elig)) if elig else z3.BoolVal(True)))
             props.append(("closed / expired entries retained after an unsuccessful pop", len(left) == 0))
@@ -234,7 +255,9 @@ def obligations(prog, src, tier, seed, which, select=None):
     obs.append({"name": f"{which.lower()}_pool_pop_step", "family": "pool_pop", "funcs": ["client::pool::PoolInner::pop", "client::pool::idle::IdleConnections::{pop,is_empty,len,clear}"],
                 "bound": "0..3 idle entries released at symbolic non-decreasing instants, each open/closed (symbolic), idle_timeout None or any duration >= 0 (incl. zero), pop at any later instant, another origin populated or not",
                 "doc": "one pop from an arbitrary bounded state returns the most recently released entry that is open and not idle for longer than the timeout, None only if there is none; discards what it skipped; other origins untouched",
-                "run": run_pop, "check": check_pop, "crosscheck": False, "max_paths": 20000})
+                "run": run_pop, "check": check_pop, "crosscheck": False, "max_paths": 20000,
+                "cex_extract": lambda p, m: {"family": "pool_release", "max_idle": 8, "burst": 2},
+                "judge": lambda scn, out: out.get("result", "").startswith(("panic", "crash")) or (("discarded" in scn.get("claim", "")) and int(out.get("dials_second", "0")) > 0) or None})
 
     # ------------------------------------------------------------------------------------------------
     # release path: Pooled::drop -> WhenReady::{poll, drop}
@@ -298,6 +321,10 @@ def obligations(prog, src, tier, seed, which, select=None):
         props.append(("releasing a non-shareable connection starts exactly one hand-back task", ctx.n_spawned == 1))
         props.append(("connection visible in the pool while its hand-back task was still waiting for readiness", not ctx.pending_violation))
         props.append(("pool mutex left locked", not ctx.shared.locked))
+        # the task may only report completion once the connection itself reported ready (or failed):
+        # otherwise a still-busy connection re-enters the pool when the finished task is dropped
+        props.append(("hand-back task completed although the connection never reported readiness (a busy connection would re-enter the pool)",
+                      (not ctx.finished_ready) or getattr(ctx.conn, "last_ready", None) in ("ok", "err")))
         open_now = ctx.conn.is_open
         should = z3.And(open_now, z3.BoolVal(ctx.tok != 0 and ctx.pool_alive))
         props.append(("a closed connection, or one the pool does not manage, was handed back to the pool", z3.Implies(z3.BoolVal(in_idle > 0), should)))
